@@ -22,6 +22,7 @@ func init() {
 		},
 		Run: runC36,
 		Controls: []Control{
+			{Name: "addpath-options-compared-by-mode-only", File: "protocols/bgp/server/peer.go", Old: "\tif a.AddPathSend != x.AddPathSend {\n\t\treturn true\n\t}\n", New: "\tif a.AddPathSend.BestOnly != x.AddPathSend.BestOnly {\n\t\treturn true\n\t}\n", Expect: "restart-covers-session-settings"},
 			{Name: "ttl-not-compared", File: "protocols/bgp/server/peer.go", Old: "\tif pc.TTL != x.TTL {\n\t\treturn true\n\t}\n\n", New: "", Expect: "restart-covers-session-settings"},
 			{Name: "address-families-not-compared", File: "protocols/bgp/server/peer.go", Old: "\tif pc.IPv4.needsRestart(x.IPv4) || pc.IPv6.needsRestart(x.IPv6) {\n\t\treturn true\n\t}\n", New: "", Expect: "restart-covers-session-settings"},
 			{Name: "role-compared-only-when-old-has-one", File: "protocols/bgp/server/peer.go", Old: "\tif pc.PeerRole != x.PeerRole {\n\t\treturn true\n\t}\n", New: "\tif peerRoleEnabled(pc.PeerRole) {\n\t\tif pc.PeerRole != x.PeerRole {\n\t\t\treturn true\n\t\t}\n\t}\n", Expect: "restart-compares-like-with-like"},
@@ -69,11 +70,41 @@ func runC36(c *core.Ctx) {
 			byName[n] = fv
 		}
 	}
+	// a struct-valued setting counts as compared only when the whole value is compared (== / != on the field of both
+	// operands) or every member that the session is built from is read by the comparison
+	wholeOrAllParts := func(fv *types.Var) bool {
+		st, ok := fv.Type().Underlying().(*types.Struct)
+		if !ok {
+			return true
+		}
+		whole := false
+		for _, g := range p.ReachableFns(needs) {
+			ast.Inspect(g.Decl.Body, func(n ast.Node) bool {
+				be, ok := n.(*ast.BinaryExpr)
+				if ok && (be.Op == token.EQL || be.Op == token.NEQ) && core.FieldOf(g.Pkg, be.X) == fv && core.FieldOf(g.Pkg, be.Y) == fv {
+					whole = true
+				}
+				return true
+			})
+		}
+		if whole {
+			return true
+		}
+		for i := 0; i < st.NumFields(); i++ {
+			if !cmp[st.Field(i)] { // the session copies the structure as a whole: every member counts
+				return false
+			}
+		}
+		return true
+	}
 	sort.Strings(names)
 	c.Check(len(names) >= 15, "restart-covers-session-settings", "configuration fields read by newPeer", newPeer.Decl.Pos(), fmt.Sprintf("found %d, floor 15", len(names)))
 	for _, n := range names {
 		construct := "session setting " + n + " takes effect on reload"
 		switch {
+		case cmp[byName[n]] && !wholeOrAllParts(byName[n]):
+			c.Fail("restart-covers-session-settings", construct, needs.Decl.Pos(),
+				n+" is a structure of several settings; NeedsRestart reads only part of it (neither compares the whole value nor every member the session is built from): a reload that changes one of the other members (e.g. the add-path path count) leaves the running session on the old value")
 		case cmp[byName[n]]:
 			c.Hold("restart-covers-session-settings", construct, needs.Decl.Pos(), "compared by NeedsRestart")
 		case inPlace[n]:
